@@ -290,16 +290,17 @@ PROPS["C02"] = dict(
 PROPS["C10"] = dict(
     title="A journal file is deleted only when nothing in it is still needed",
     modules=["FjallModel.Props.C10"],
-    theorems=["Fjall.Db.c10_evicts_oldest_flushed_only", "Fjall.Db.c10_watermark_covers_memory"],
+    theorems=["Fjall.Db.c10_evicts_oldest_flushed_only", "Fjall.Db.c10_watermark_covers_memory", "Fjall.Db.c10_returns_to_one"],
     statements={
-        "c10_evicts_oldest_flushed_only": "maintenance removes a prefix of the sealed journals only, touches nothing else, and each removed journal had every watermark (ks, lsn) satisfied: keyspace deleted or persisted >= lsn",
+        "c10_evicts_oldest_flushed_only": "maintenance removes a prefix of the sealed journals only, touches nothing else, and each removed journal had every watermark (ks, lsn) satisfied: keyspace deleted, or persisted >= lsn, or nothing held in memory",
+        "c10_returns_to_one": "if every live keyspace holds nothing in memory (all flushed), maintenance removes every sealed journal (repaired, F10)",
         "c10_watermark_covers_memory": "at journal rotation every keyspace with unflushed records gets a watermark >= each of their seqnos",
     },
     engines=[dict(bin="dbeng", args=["--mode", "c10"], cases_quick=480, cases_thorough=10000, profiles=["release"])],
     rule="as C04; journal_count after every event vs the model's eviction rule (the persisted seqno after last-level compactions is an observed input that only "
-         "lowers the model's value); crash images after evictions",
+         "lowers the model's value); crash images after evictions; 'flush every keyspace + maintenance => one journal file' as an implementation-only oracle",
     trusted_base=DB_TB,
-    assumptions=["liveness ('returns to one journal') fails when a keyspace was cleared or its newest tombstones were compacted away after sealing (finding F10, persisted seqno not monotone)"],
+    assumptions=["end-to-end 'a crash right after the unlink loses nothing' is checked by the engine's crash images; the sealed-journal recovery theorem is stage 2"],
     level_text="Lean 4 theorems about the eviction rule and the rotation watermarks; the end-to-end 'crash after unlink loses nothing' is checked on crash images by the engine",
     level_note="partial: end-to-end theorem over sealed journals is stage 2; the real >64 MB trigger is replaced by a hook calling the same rotate_journal",
     technique="Lean 4 proof (prefix-removal induction, fold maximum) + differential correspondence",
